@@ -71,6 +71,12 @@ RemoveAbsent(e) ==
     /\ UNCHANGED <<edges, hmap, model>>
     /\ last' = [op |-> "remove_absent", arg |-> e, raised |-> TRUE]
 
+(* crash point: the argument is a tuple that cannot be hashed (e.g. it holds a list).  A plain set raises TypeError
+   and is untouched; so is the model.  What happened is visible only through `last`. *)
+AddUnhashable ==
+    /\ UNCHANGED <<edges, hmap, model>>
+    /\ last' = [op |-> "add_unhashable", raised |-> TRUE]
+
 Draw(i) ==
     /\ i \in 1..Len(edges)
     /\ UNCHANGED <<edges, hmap, model>>
@@ -84,6 +90,7 @@ Observe ==
 DrawAny == \E i \in 1..Len(edges) : Draw(i)
 
 Next == \/ \E e \in U : Add(e) \/ Remove(e) \/ RemoveAbsent(e)
+        \/ AddUnhashable
         \/ DrawAny
         \/ Observe
 
@@ -114,6 +121,9 @@ C20_LenIterContains ==
 
 C20_AbsentRemoveHarmless ==
     [][\A e \in U : (e \notin model /\ last'.op = "remove_absent") => UNCHANGED <<edges, hmap, model>>]_vars
+
+C20_FailedCallHarmless ==      \* any call that raises (absent removal, unhashable insertion) leaves the structure as it was
+    [][(last'.op \in {"remove_absent", "add_unhashable"}) => UNCHANGED <<edges, hmap, model>>]_vars
 
 C20_AddPresentNoop ==
     [][\A e \in U : (e \in model /\ last'.op = "add" /\ last'.arg = e) => UNCHANGED <<edges, hmap, model>>]_vars
